@@ -164,6 +164,14 @@ void ed_apply(NifFile& nif, const std::string& op, int serial) {
 		if (!is_geomdata(ed_id(hdr, a.substr(0, p))))
 			hdr.ReplaceBlock(ed_id(hdr, a.substr(0, p)), mk(a.substr(p + 1)));
 	}
+	else if (k == 'Y') {
+		// replace a block by a clone of itself: the new block has the SAME type as the old one (the only
+		// replacement that keeps a type that may occur once in the file)
+		uint32_t id = ed_id(hdr, a);
+		auto old = hdr.GetBlock<NiObject>(id);
+		if (old && !is_geomdata(id) && !dynamic_cast<NiShape*>(old))
+			hdr.ReplaceBlock(id, old->Clone());
+	}
 	else if (k == 'O') {
 		std::vector<uint32_t> order;
 		if (!a.empty() && a[0] == 'g')
